@@ -393,6 +393,7 @@ pub fn generate(seed: u64, idx: u64, thorough: bool) -> Case {
         let bit_count = rng.range(1, (word_bits as usize - bit_start).min(4) as u64) as usize;
         Subject::Prep(PrepSpec {
             n,
+            rank: if rng.chance(250) { 2 } else { 1 },
             word_bits,
             bit_start,
             bit_count,
